@@ -358,10 +358,11 @@ def refusal_family(pvl):
     ]
 
 
-def observe_encode(enc, module, call="encode", pvl=None, dialect=None):
+def observe_encode(enc, module, call="encode", pvl=None, dialect=None, keep=False):
     try:
         if call == "encode":
-            return ("ok", enc.encode(clone(module)))
+            # (keep: the caller's very object, not a structural copy of it)
+            return ("ok", enc.encode(module if keep else clone(module)))
         if call == "dumps":
             return ("ok", pvl.dumps(clone(module), encoder=enc))
         g, d = other_pair(pvl, dialect)
@@ -603,6 +604,55 @@ def shared_tables(rec, hb, pvl, tier, seed):
                 return
 
 
+def edited_between_calls(rec, pvl):
+    """The caller keeps ONE module object, writes it, edits it in place and
+    writes it again with the same encoder object: the second text is what a
+    fresh encoder gives for (a copy of) the edited module."""
+    col = pvl.collections
+
+    def build():
+        return col.PVLModule([("o", col.PVLObject([("k", 1)])),
+                              ("g", col.PVLGroup([("a", 1)])), ("s", "x")])
+
+    def e_scalar(m): m["o"] = 5                                   # noqa: E704
+    def e_group(m): m["o"] = col.PVLGroup([("k", 1)])             # noqa: E704
+    def e_swap(m): m["g"], m["s"] = m["s"], m["g"]                # noqa: E704
+    def e_inner(m): m["g"]["a"] = [1, [2, [3, [4]]]]              # noqa: E704
+    def e_name(m): m["g"]["a b"] = m["g"].pop("a")                # noqa: E704
+    def e_string(m): m["s"] = 'say "x"\nplease'                   # noqa: E704
+    def e_object(m): m["g"] = col.PVLObject([("a", 1)])           # noqa: E704
+
+    edits = (e_scalar, e_group, e_swap, e_inner, e_name, e_string, e_object)
+    for dialect in DIALECTS:
+        for cfg in ({}, {"convert_group_to_object": False}
+                    if dialect == "PDS3" else {"width": 30}):
+            for edit in edits:
+                for twice in (False, True):
+                    try:
+                        inst = make_encoder(pvl, dialect, cfg)
+                    except TypeError:
+                        continue
+                    m = build()
+                    observe_encode(inst, m, "encode", pvl, dialect, keep=True)
+                    if twice:
+                        observe_encode(inst, m, "encode", pvl, dialect, keep=True)
+                    edit(m)
+                    want = observe_encode(make_encoder(pvl, dialect, cfg), m, "encode",
+                                          pvl, dialect)
+                    got = observe_encode(inst, m, "encode", pvl, dialect, keep=True)
+                    rec.count("modules_edited_in_place_between_calls")
+                    rec.case((dialect, "edited", edit.__name__, twice, repr(cfg)), True)
+                    if got != want:
+                        rec.violation(
+                            CHECK, dialect, "reused-encoder-differs-from-fresh",
+                            {"what": "ok-vs-exc" if got[0] != want[0] else "text",
+                             "state_is_outside_the_instance": False,
+                             "module_edited_in_place_between_calls": True},
+                            {"dialect": dialect, "cfg": cfg, "edit": edit.__name__,
+                             "written_twice_before_the_edit": twice},
+                            f"{got!r:.250} vs fresh {want!r:.250}")
+
+
 def shard(i, n, tier, seed, rec, hb):
     pvl = common.import_pvl()
     mods, cfgs = encoder_setup(pvl, seed)
@@ -633,6 +683,8 @@ def shard(i, n, tier, seed, rec, hb):
         decoder_histories(rec, hb, pvl, tier, seed, i, n, pristine)
         if i == 0:
             shared_tables(rec, hb, pvl, tier, seed)
+        if i == 1 % n:
+            edited_between_calls(rec, pvl)
     finally:
         pristine.close()
 
@@ -644,7 +696,7 @@ def finish_kwargs(rec, tier):
                                   "over the 14 representative texts (parsers) "
                                   "and over the module set (encoders; every "
                                   "third history in the quick tier)"},
-        required_counters=("parser_steps_compared", "encoder_steps_compared",
+        required_counters=("modules_edited_in_place_between_calls", "parser_steps_compared", "encoder_steps_compared",
                            "soak_steps_compared", "earlier_results_looked_at_again",
                            "decoder_steps_compared", "shared_object_steps_compared",
                            "shared_table_steps_compared",
